@@ -379,14 +379,27 @@ func ruleP1(c *Ctx, pkgs map[string]bool, floor int) {
 			// P1c: a hook that feeds the very pipe whose Producer it is hooked to must do so from another goroutine
 			if rv := chainRootVar(info, call.Fun); rv != nil {
 				feeds := false
-				ast.Inspect(hook, func(y ast.Node) bool {
-					if id, ok := y.(*ast.Ident); ok && info.Uses[id] == types.Object(rv) {
-						if sel, ok := p.Parent(id).(*ast.SelectorExpr); !ok || sel.Sel.Name != "Close" {
-							feeds = true
+				var scan func(e ast.Node, depth int)
+				scan = func(e ast.Node, depth int) {
+					ast.Inspect(e, func(y ast.Node) bool {
+						id, ok := y.(*ast.Ident)
+						if !ok {
+							return true
 						}
-					}
-					return true
-				})
+						if info.Uses[id] == types.Object(rv) {
+							if sel, ok := p.Parent(id).(*ast.SelectorExpr); !ok || sel.Sel.Name != "Close" {
+								feeds = true
+							}
+						} else if v, isVar := info.Uses[id].(*types.Var); isVar && !v.IsField() && depth < 3 {
+							// a local bound once outside the hook (send := pipe.Send())
+							if rhs := singleDef(f, v); rhs != nil && (rhs.Pos() < hook.Pos() || rhs.End() > hook.End()) {
+								scan(rhs, depth+1)
+							}
+						}
+						return true
+					})
+				}
+				scan(hook, 0)
 				if feeds {
 					nc++
 					R.Check(launches, "P1c", fmt.Sprintf("%s/prehook-feeds-%s#%d", f.Name, rv.Name(), nc), p.Position(call.Pos()), "the hook that fills "+rv.Name()+" does so in background work ("+what+")",
